@@ -104,7 +104,7 @@ class Batch:
 
     def flush(self, ctx):
         exprs = [e for part, _ in self.parts for e in part]
-        model = ctx.coq_eval(ALL_MODELS, exprs, shard=(24 if ctx.quick() else 60)) if exprs else []
+        model = ctx.coq_eval(ALL_MODELS, exprs, shard=(40 if ctx.quick() else 60)) if exprs else []
         k = 0
         for part, cb in self.parts:
             cb(model[k:k + len(part)])
@@ -1610,14 +1610,14 @@ def run(ctx):
     # ---- data path
     cases = [_case_from_json(c['replay']['case']) for c in corpus if c['replay']['kind'] == 'data']
     r = rng.fork('data')
-    for i in range(ctx.n(90, 1200)):
+    for i in range(ctx.n(70, 1200)):
         cases.append(gen_data_case(r, big=(i % 8 == 0)))
     batch = Batch()
     run_data(ctx, cases, batch)
     # ---- set-up / teardown
     scheds = [c['replay']['labels'] for c in corpus if c['replay']['kind'] == 'sm']
     r = rng.fork('sm')
-    for _ in range(ctx.n(200, 3000)):
+    for _ in range(ctx.n(120, 3000)):
         scheds.append(gen_sm_schedule(r, r.choice([6, 12, 20, 30, 45])))
     if not ctx.quick():
         # every 5-label continuation, over the five interesting labels, of an open data link
@@ -1629,7 +1629,7 @@ def run(ctx):
     # ---- set-up / teardown of several links on one multiplexer
     scheds2 = [c['replay']['labels'] for c in corpus if c['replay']['kind'] == 'sm2']
     r = rng.fork('sm2')
-    for _ in range(ctx.n(150, 2500)):
+    for _ in range(ctx.n(100, 2500)):
         scheds2.append(gen_sm2_schedule(r, r.choice([6, 10, 16, 24])))
     scheds2.extend(enum_sm2_schedules(ctx.n(3, 5)))
     ctx.extra['exhaustive_sm2_depth'] = ctx.n(3, 5)
